@@ -69,6 +69,14 @@ def options(r, mod):
     top = r.choice(paths) if r.random() < 0.6 else ()
     cls = ['::'.join(path + (it.name,)) for path, it in S.walk_items(mod.items)
            if it.k == 'Class' and not it.template and not any(m.k == 'Enum' for m in it.members)]
+    # instantiations of templates with two or more parameters: their C++ names contain ", "
+    from vlib import ref_inst
+    import itertools
+    for path, it in S.walk_items(mod.items):
+        if it.k == 'Class' and it.template and len(it.template) >= 2 and all(p.insts for p in it.template) and \
+                not any(m.k == 'Enum' for m in it.members):
+            combo = next(itertools.product(*[p.insts for p in it.template]))
+            cls.append(ref_inst.cpp_typename(S.T(it.name, path, combo)))
     x = r.random()
     if x < 0.3 and FLAG_OMIT_IGNORE:
         ignore = None
